@@ -62,6 +62,8 @@ JOBS = {
         ("a_cp", "CCopy", "CCopy_mc.cfg", 1, None, None, {}),        # assignment of 1..8-byte structs / unions through subscripts
         ("n_sc", "CScope", "CScope_mc.cfg", 1, None, None, {}),      # typedef names hidden by objects / parameters of inner scopes
         ("u_bi", "CBuiltin", "CBuiltin_mc.cfg", 2, None, None, {}),  # __builtin_{add,sub,mul}_overflow, __builtin_expect
+        ("w_sw", "CSwitch", "CSwitch_mc.cfg", 1, None, None, {}),    # dense / sparse switches over every integer type
+        ("l_el", "CElide", "CElide_mc.cfg", 1, None, None, {}),      # brace elision in initialisers of nested aggregates
         ("s_d2", "CStmt", "CStmt_mc.cfg", 2, None, None, {}),        # statement trees depth <= 2, <= 5 nodes
         ("s_sim", "CStmt", "CStmt_sim.cfg", 2, 4000, 60, {}),        # statement trees depth <= 3, <= 14 nodes
     ],
@@ -84,6 +86,8 @@ JOBS = {
         ("n_sc", "CScope", "CScope_mc.cfg", 1, None, None, {}),
         ("u_bi", "CBuiltin", "CBuiltin_t.cfg", 4, None, None, {}),
         ("u_bif", "CBuiltin", "CBuiltin_tf.cfg", 4, None, None, {}),
+        ("w_sw", "CSwitch", "CSwitch_mc.cfg", 1, None, None, {}),
+        ("l_el", "CElide", "CElide_mc.cfg", 1, None, None, {}),
         ("s_d2", "CStmt", "CStmt_mc.cfg", 2, None, None, {}),
         ("s_d3", "CStmt", "CStmt_t.cfg", 8, None, None, {}),
         ("s_sim", "CStmt", "CStmt_sim.cfg", 8, 40000, 60, {}),
@@ -773,7 +777,7 @@ def classify(fails):
             if c["gfam"] == "scope" and c["sig"].startswith("sz:obj_") and fields == ["field0"] and ef[0] == "ul" and got[0] == "i":
                 keyed.append((K_SIZEOF_INT, r))
             else:
-                keyed.append(("c%s:%s:%s" % (c["gfam"], "+".join(fields), c["sig"]), r))
+                keyed.append(("c%s:%s:%s" % (c["gfam"], "+".join(fields), c["sig"].replace(" ", "")), r))
             continue
         if c["fam"] == "decl":
             # `int a[]; int a[3];`: c2mir sizes the object by the first tentative definition (4 bytes), uses run behind it
@@ -888,8 +892,11 @@ def gen_cases(jobs, stats, maxpar=None):
         tot_distinct += r.distinct
         stats.cnt["tlc_wall_s"] += int(r.wall)
         fam = {"CStmt": "stmt", "CInit": "init", "CBytes": "bytes", "CDecl": "decl", "CCond": "gen", "CCopy": "gen",
-               "CScope": "gen", "CBuiltin": "gen"}.get(kw["module"], "expr")
+               "CScope": "gen", "CBuiltin": "gen", "CSwitch": "gen", "CElide": "gen"}.get(kw["module"], "expr")
         for o in r.outs:
+            if o.get("ok") is False:          # CElide: the list has an excess initialiser under the standard's reading
+                stats.cnt["dropped_%s_not_strictly_conforming" % fam] += 1
+                continue
             if "u" in o:
                 stats.cnt["dropped_%s_%s" % (fam, o["u"] if isinstance(o["u"], str) else "undefined")] += 1
                 continue
